@@ -75,6 +75,13 @@ def run(rep, kf, tier, seed):
     from props.common import engine_b_crosscheck
     try:
         engine_b_crosscheck(rep, tier, convert_value=False, models=["3.1.0", "3.0.3"])
+    except Exception as e:      # noqa: BLE001
+        # the cross-check imports the schematic modules natively: if they do not even import on this tree, the obligations above
+        # already say so (refuted with witnesses); the cross-check has nothing to compare and is skipped, not an engine error
+        if any(o.status == core.REFUTED for o in rep.obligations):
+            rep.extra["engine_b_crosscheck_skipped"] = f"{type(e).__name__}: {str(e)[:200]}"
+        else:
+            raise
     finally:
         from pyvc import fragments as _fr
         _fr.cleanup_all()
